@@ -30,8 +30,8 @@ def oracle_pass(chk, scripts, traces, props, pristine=False):
         for rec in recs:
             ev = sc['events'][rec['seq']] if rec['seq'] >= 0 else {}
             if ev.get('op') == 'Reconfigure' and rec['reply']['class'] == 'ok' and ev['config'] != '__CURRENT__':
+                changed = changed or ev['config'] != cfg
                 cfg = ev['config']
-                changed = changed or ev.get('tag') == 'new'
             fs = fsoracle.ta_state_findings(rec, cfg, sc['_machine'], prevg)
             prevg = {g['id']: g for g in ((rec.get('ta') or {}).get('grants') or [])}
             if pristine and rec.get('tag') == 'quiescent':
